@@ -12,7 +12,7 @@
     theorem holds for all of them. *)
 From Coq Require Import ZArith QArith List Bool String Permutation Sorted.
 From Verif Require Import Base Cal Tables Period Builder BuilderSpec BuilderProofs BuilderGroupProofs
-  BuilderValueProofs BuilderRejectProofs BuilderOwnProofs BuilderAxesProofs.
+  BuilderValueProofs BuilderRejectProofs BuilderOwnProofs BuilderAxesProofs BuilderErrorProofs.
 Import ListNotations.
 Open Scope Z_scope.
 Open Scope string_scope.
@@ -125,17 +125,35 @@ Theorem ill_formed_rejected : forall x s doc,
 Proof. exact ill_formed_never_builds. Qed.
 Print Assumptions ill_formed_rejected.
 
-(** ... and the error is the situation error: in full for the class "unknown entity"
-    ([unknown_entity_rejected]); for the other classes when the item is the first ill-formed one
-    that the builder meets, i.e. what was read before it was accepted
-    ([person_declaration_rejected] with [unknown_variable_refused], [other_entity_variable_refused],
-    [refused_entry_in_field] + [unparsable_period_refused] / [bad_value_refused] +
-    [text_for_number_value] / [unknown_enum_value] / [impossible_date_value] for the declarations
-    of persons; [group_declaration_rejected] with [unknown_person_rejected],
-    [duplicate_membership_rejected], [too_many_role_holders_rejected] for the role lists of groups;
-    [mismatched_period_rejected] for the flush).  When something read earlier fails first, the
-    error is that earlier item's: again the situation error if it is ill-formed in the sense
-    above, [EUnmodelled] if it is outside the modelled language. *)
+(** ... and the error IS the situation error.  While an entity-shaped document (without axes) is
+    read - persons, then every group kind - the model refuses with [ESituation] only, or with its
+    marker [EUnmodelled] for an input outside the modelled language (the IndexError / ValueError
+    paths of the code are shown unreachable: every buffered array of an entity has one cell per
+    instance): either the build is refused that way, or everything was read and the build is the
+    flush of the populations. *)
+Theorem reading_refuses_with_situation_error : forall x s doc,
+  wf_sys s -> aget "axes" doc = None ->
+  (exists k, build_from_entities x s doc = Err k /\ (k = ESituation \/ k = EUnmodelled)) \/
+  (exists persons st1 st2, was_read x s doc persons st1 st2 /\
+     build_from_entities x s doc = mapM (finalize_population s st2) (entities s)).
+Proof. exact read_or_refused. Qed.
+Print Assumptions reading_refuses_with_situation_error.
+
+(** Hence, for every class that is detected while reading ([ill_formed_read]: all the classes of
+    [ill_formed] but the mismatched period), at ANY place of the document: the situation error
+    (or the marker, when something read before the item is outside the modelled language). *)
+Theorem ill_formed_rejected_with_situation_error : forall x s doc,
+  wf_sys s -> e_roles (s_person s) = [] -> aget "axes" doc = None ->
+  ill_formed_read x s doc ->
+  build_from_entities x s doc = Err ESituation \/ build_from_entities x s doc = Err EUnmodelled.
+Proof. exact ill_formed_read_situation. Qed.
+Print Assumptions ill_formed_rejected_with_situation_error.
+
+(** The mismatched period is detected by the flush: [mismatched_period_rejected] shows the
+    holder's PeriodMismatchError and its conversion to the situation error when the variable is
+    the first one whose flush fails; a variable flushed before it can fail with the code's own
+    ValueError ("inconsistent input" of the divide rule), which the property does not list.
+    The lemmas below are the single steps. *)
 
 Theorem unknown_entity_rejected : forall x s doc k,
   In k (map fst doc) -> k <> "axes" -> ~ In k (plurals s) -> ~ In k (singulars s) ->
